@@ -276,7 +276,8 @@ func c06Eval(tier string, i int) CaseResult {
 			rp.OpenStream() // a listening stream is part of a normal session
 		}
 		vsched.Quiesce()
-		baseline := len(libraryThreads(vsched.LiveThreads()))
+		baseThreads := libraryThreads(vsched.LiveThreads())
+		baseline := len(baseThreads)
 		pend0 := pendingOf(r)
 		deleted := false
 		for _, in := range seq {
@@ -311,13 +312,8 @@ func c06Eval(tier string, i int) CaseResult {
 		}
 		vsched.Quiesce()
 		live := libraryThreads(vsched.LiveThreads())
-		// a fresh legacy-SSE session legitimately owns stream goroutines; compare without it
-		extra := 0
-		if cs.Mode == "ls" {
-			extra = 4
-		}
-		if len(live) > baseline+extra {
-			viol = append(viol, V(k("goroutine-leak"), "library goroutines grew from %d to %d: %v", baseline, len(live), live))
+		if grown := threadsSince(baseThreads, live); len(grown) > 0 {
+			viol = append(viol, V(k("goroutine-leak"), "library goroutines grew from %d to %d: %v", baseline, len(live), grown))
 		}
 		if p := pendingOf(r); p != pend0 {
 			viol = append(viol, V(k("pending-leak"), "pending server-request table changed from %d to %d", pend0, p))
